@@ -1,4 +1,136 @@
-/- Driver.C06 — stream `C06` (stub: replaced when the property's model is built). -/
+/-
+  Driver.C06 — stream `C06`: payload `(doc (query*))`
+    doc   := node            node := (uid "tag ((\"k \"v)*) ("cls*) "text node*)
+    query := (recv op)
+    recv  := (P) | (P uid) | (E uid) | (C uid*)
+    op    := (tag "q) | (name "q) | (id "q) | (cls "q) | (attr "a "v) | (vals "a ("v*))
+           | (custom pred) | (first pred) | (find (("key one "v) | ("key many "v*))*)
+           | (filter and|or|alland|allor crit*)
+    crit  := (eq "f "v) | (ne "f "v) | (contains "f "v) | (icontains "f "v) | (in "f "v*)
+    pred  := (true) | (hasattr "a) | (tagis "t) | (hascls "c) | (textsub "s) | (not p) | (and p q) | (or p q)
+  Output: one answer per query: (ok uid*) | (one uid) | (none) | (raise) | (na).
+-/
+import AHP.Model.Search
 namespace Driver.C06
-def run (_payload : String) : String := "unimplemented"
+open AHP AHP.Sexp
+
+partial def toNode : Sexp → Option Node
+  | .list (u :: t :: .list attrs :: .list cls :: txt :: ks) => do
+    let uid ← toNat? u
+    let tag ← toStr? t
+    let attrs ← attrs.mapM (fun a => match a with
+      | .list [k, v] => do pure ((← toStr? k), (← toStr? v))
+      | _ => none)
+    let cls ← cls.mapM toStr?
+    let text ← toStr? txt
+    let kids ← ks.mapM toNode
+    pure (.mk ⟨uid, tag, attrs, cls, text⟩ kids)
+  | _ => none
+
+partial def toPred : Sexp → Option (Elem → Bool)
+  | .list [.atom "true"] => some (fun _ => true)
+  | .list [.atom "hasattr", a] => do let a ← toStr? a; pure (fun e => (e.attr a).isSome)
+  | .list [.atom "tagis", t] => do let t ← toStr? t; pure (fun e => e.tag == t)
+  | .list [.atom "hascls", c] => do let c ← toStr? c; pure (fun e => e.hasClass c)
+  | .list [.atom "textsub", s] => do let s ← toStr? s; pure (fun e => isSub s e.text)
+  | .list [.atom "not", p] => do let p ← toPred p; pure (fun e => !(p e))
+  | .list [.atom "and", p, q] => do let p ← toPred p; let q ← toPred q; pure (fun e => p e && q e)
+  | .list [.atom "or", p, q] => do let p ← toPred p; let q ← toPred q; pure (fun e => p e || q e)
+  | _ => none
+
+def toRecv (doc : Node) : Sexp → Option Recv
+  | .list [.atom "P"] => some (.parser doc none)
+  | .list [.atom "P", u] => do let u ← toNat? u; let n ← doc.find? u; pure (.parser doc (some n))
+  | .list [.atom "E", u] => do let u ← toNat? u; let n ← doc.find? u; pure (.element n)
+  | .list (.atom "C" :: us) => do
+    let us ← us.mapM toNat?
+    let ms ← us.mapM doc.find?
+    pure (.coll ms)
+  | _ => none
+
+def toCrit : Sexp → Option Crit
+  | .list [.atom "eq", f, v] => do pure (.eq (← toStr? f) (← toStr? v))
+  | .list [.atom "ne", f, v] => do pure (.ne (← toStr? f) (← toStr? v))
+  | .list [.atom "contains", f, v] => do pure (.contains (← toStr? f) (← toStr? v))
+  | .list [.atom "icontains", f, v] => do pure (.icontains (← toStr? f) (← toStr? v))
+  | .list (.atom "in" :: f :: vs) => do pure (.isin (← toStr? f) (← vs.mapM toStr?))
+  | _ => none
+
+def toFindArg : Sexp → Option (Str × FVal)
+  | .list [k, .atom "one", v] => do pure ((← toStr? k), .one (← toStr? v))
+  | .list (k :: .atom "many" :: vs) => do pure ((← toStr? k), .many (← vs.mapM toStr?))
+  | _ => none
+
+def toMode : String → Option FMode
+  | "and" => some .and_
+  | "or" => some .or_
+  | "alland" => some .allAnd
+  | "allor" => some .allOr
+  | _ => none
+
+def okTC (c : TC) : Sexp := .list (sym "ok" :: c.ids.map natAtom)
+def optTC : Option TC → Sexp
+  | some c => okTC c
+  | none => .list [sym "raise"]
+def one : Option Node → Sexp
+  | some n => .list [sym "one", natAtom n.uid]
+  | none => .list [sym "none"]
+
+def bad : Sexp := sym "bad-query"
+
+def runOp (doc : Node) (r : Recv) : Sexp → Sexp
+  | .list [.atom "tag", q] => match toStr? q with
+    | some q => okTC (byTagName q r)
+    | none => bad
+  | .list [.atom "name", q] => match toStr? q with
+    | some q => okTC (byName q r)
+    | none => bad
+  | .list [.atom "id", q] => match toStr? q with
+    | some q => one (byId q r)
+    | none => bad
+  | .list [.atom "cls", q] => match toStr? q with
+    | some q => optTC (byClassName q r)
+    | none => bad
+  | .list [.atom "attr", a, v] => match toStr? a, toStr? v with
+    | some a, some v => okTC (byAttr a v r)
+    | _, _ => bad
+  | .list [.atom "vals", a, .list vs] => match toStr? a, vs.mapM toStr? with
+    | some a, some vs => okTC (withAttrValues a vs r)
+    | _, _ => bad
+  | .list [.atom "custom", p] => match toPred p with
+    | some f => okTC (customFilter f r)
+    | none => bad
+  | .list [.atom "first", p] => match toPred p with
+    | some f => match firstCustomFilter f r with
+      | some x => one x
+      | none => .list [sym "na"]
+    | none => bad
+  | .list [.atom "find", .list args] => match args.mapM toFindArg with
+    | some kw => match r with
+      | .parser _ none => optTC (find doc kw)
+      | _ => .list [sym "na"]
+    | none => bad
+  | .list (.atom "filter" :: .atom m :: cs) => match toMode m, cs.mapM toCrit with
+    | some m, some cs => match r with
+      | .parser _ (some _) => .list [sym "na"]          -- parser.filter* take no root= argument
+      | _ => match filterQ m cs r with
+        | some c => okTC c
+        | none => .list [sym "na"]
+    | _, _ => bad
+  | _ => bad
+
+def runQuery (doc : Node) : Sexp → Sexp
+  | .list [rv, op] => match toRecv doc rv with
+    | some r => runOp doc r op
+    | none => sym "bad-recv"
+  | _ => bad
+
+def run (payload : String) : String :=
+  match Sexp.parse payload with
+  | some (.list [d, .list qs]) =>
+    match toNode d with
+    | some doc => (Sexp.list (qs.map (runQuery doc))).render
+    | none => "bad-doc"
+  | _ => "bad-case"
+
 end Driver.C06
